@@ -77,7 +77,7 @@ def main():
     from vf.harness import load, src_hash
     mod = load(pid)
     hs = [h for h in mod.HARNESSES if tier in h.tiers and (not a.only or a.only in h.name)]
-    jobs = [(pid, h.name, tier, h.timeout[tier] * 4 + 300) for h in hs]
+    jobs = [(pid, h.name, tier, h.timeout[tier] * 2 + 300) for h in hs]
     if not a.no_selfcheck and not a.only:
         jobs += [('_selfcheck', n, tier, 1200) for n in getattr(mod, 'SELFCHECK', SELF)]
     results = []
